@@ -50,10 +50,23 @@ class UnmanagedRoles:
         # the adders wait for / try to take a size slot themselves: an `add()` that only awaits another *public* function (a
         # new entry point with a protocol of its own, e.g. `timeout_add(object, None)`) is not what the rules for add were written for
         self.ADD_DELEGATES = None          # (raised by the properties that are about adding: C05)
+        self.ADD_DEADLINE = None
         for role_b in (self.ADD, self.TRY_ADD):
             if not any(blk.term.kind == 'call' and any(n.startswith('tokio::sync::Semaphore::') for n in blk.term.callee_names()) for blk in role_b.blocks):
                 deleg = sorted({n for blk in role_b.blocks if blk.term.kind == 'call' for n in blk.term.callee_names()
                                 if n.startswith('deadpool::unmanaged::Pool') and any(x.j.get('vis') == 'pub' for x in prog.by_name.get(n, []))})
+                if deleg and role_b is self.ADD:
+                    # `add()` waits for a slot without a deadline: whatever it delegates to, a deadline it passes on is `None`
+                    an_ = prog.an(role_b)
+                    for blk in role_b.blocks:
+                        t_ = blk.term
+                        if t_.kind == 'call' and any(n in deleg for n in t_.callee_names()):
+                            for a_ in t_.args:
+                                ty_ = a_.const.get('ty', '') if a_.kind == 'const' else role_b.locals[a_.place.local]['ty'] if not a_.place.proj else ''
+                                if 'std::option::Option<std::time::Duration>' in ty_:
+                                    src_ = sources(an_, a_)
+                                    if not src_ or any(not (x[0] == 'agg' and x[1] == 'std::option::Option::None') for x in src_):
+                                        self.ADD_DEADLINE = (blk, sorted(str(x[1]) for x in src_ if not (x[0] == 'agg' and x[1] == 'std::option::Option::None'))[:4])
                 if deleg:
                     self.ADD_DELEGATES = ('%s takes no size slot itself but delegates to the public %s: the rules for add / try_add do not cover that entry point'
                                     % (role_b.name, ', '.join(d.split('::')[-1] for d in deleg)))
